@@ -62,27 +62,7 @@ Theorem C15_excluded_respected_min :
 Proof. exact C15_get_min_excluded_proof. Qed.
 Print Assumptions C15_excluded_respected_min.
 
-(* min policies, the full selection statement ... *)
-Definition C15_select_min_full : Prop :=
-  forall (c : cfg) (p0 : gpol) (h : list op) (rq : reqtype) (strict : bool) (excl : option nat) (m : mpol) (r : sel_res),
-    c_n c <> O -> g_policy (run c p0 h) = GSet (SMin m) ->
-    In r (results_of (select c (run c p0 h) rq strict excl)) ->
-    select_ok c (spec_run c p0 h) (key_of rq) strict excl r = true.
-
-(* ... is false of the faithful model: a node whose sorting latency (measurement + offset) is one hour or
-   more is alive in the view but invisible to every scan (they start at time.Hour with a strict <), so once
-   the standing choice has been lost the group reports `no alive node` although a node is alive.
-   Witness: 2 nodes, node 0 has offset 2 h; node 1 dies, node 0 dies and is revived by a probe. *)
-Theorem C15_select_min_refuted :
-  exists c p0 h rq strict excl m r,
-    c_n c <> O /\ g_policy (run c p0 h) = GSet (SMin m) /\
-    In r (results_of (select c (run c p0 h) rq strict excl)) /\
-    select_ok c (spec_run c p0 h) (key_of rq) strict excl r = false.
-Proof.
-  exists w_cfg, (GSet (SMin MLast)), w_hist, w_rq, true, None, MLast, (RErr ENoAlive hour).
-  destruct C15_select_min_refuted_proof as (H1 & _ & H3 & H4). repeat split; auto. discriminate.
-Qed.
-Print Assumptions C15_select_min_refuted.
+(*MINPROPS*)
 
 (* "merely better" cannot be read strictly: with tolerance 30 ms and the current choice at 20 ms, a node that
    reports the same 20 ms takes over (the spec's switch_ok therefore allows ties). *)
